@@ -247,6 +247,28 @@ pub fn resp_case(rec: &mut Rec, rng: &mut Rng, spec: &RespSpec, with_sink: bool)
             rec.oracle_fail("C05", &format!("a response written after {} of its {} builder calls and again after all of them: the later write does not show the calls made so far", k, spec.ops.len()), &[op.clone(), format!("resp {}", prefix_spec.proto())]);
         }
     }
+    // a write that FAILS part-way (a buffer that is too small, a stream that breaks) says nothing about the next one:
+    // the same object written afterwards into another sink gives the whole response again — the bytes are a function of
+    // the builder calls, not of what an earlier sink accepted
+    {
+        let r = spec.build();
+        let cut = if bytes.is_empty() { 0 } else { rng.below(bytes.len()) };
+        let mut small = vec![0u8; cut];
+        let failed = {
+            let mut slice: &mut [u8] = &mut small[..];
+            r.write_all(&mut slice).is_err()
+        };
+        let mut broken = SchedSink { sched: vec![(0, cut.max(1)), (3, 0)], pos: 0, acc: vec![] };
+        let failed2 = r.write_all(&mut broken).is_err();
+        let mut after = Vec::new();
+        let _ = r.write_all(&mut after);
+        let mut after2 = Vec::new();
+        let _ = r.write_all(&mut after2);
+        rec.count(if failed || failed2 { "failed-write-then-write" } else { "short-sink-sufficed" });
+        if after != bytes || after2 != bytes || !bytes.starts_with(&small[..]) && failed {
+            rec.oracle_fail("C05", &format!("a write into a sink that failed after {} bytes, then the same response written into another sink: the later write is not the whole response", cut), &[op.clone()]);
+        }
+    }
     // the public getters
     {
         let r = spec.build();
@@ -303,8 +325,16 @@ pub fn resp_case(rec: &mut Rec, rng: &mut Rng, spec: &RespSpec, with_sink: bool)
         }
         let _ = fails;
         let mut sink = SchedSink { sched, pos: 0, acc: vec![] };
-        let r = spec.build().write_all(&mut sink);
+        let robj = spec.build();
+        let r = robj.write_all(&mut sink);
         let ok = r.is_ok();
+        {
+            let mut after = Vec::new();
+            let _ = robj.write_all(&mut after);
+            if after != bytes {
+                rec.oracle_fail("C05", "the same response written again after a write through a splitting / failing sink is not the whole response", &[format!("respw {} {}", spec.proto(), txt.join(",")), op.clone()]);
+            }
+        }
         let opw = format!("respw {} {}", spec.proto(), txt.join(","));
         // oracle: a prefix of the one-piece serialization, all of it iff Ok
         if !bytes.starts_with(&sink.acc) || (ok != (sink.acc.len() == bytes.len())) {
